@@ -71,35 +71,39 @@ func doRemove(c *core.Ctx, rev bool, names []string, pre bool, n *core.N) *core.
 	emit := func(rest ...string) { c.Emit("C06.remove", append(head, rest...)...) }
 	var rerr error
 	if p, msg := core.Safe(func() { rerr = t.RemoveTips(rev, names...) }); p {
-		emit("panic:"+core.Escape(msg), "", "", "", "-1", "1", "1")
+		emit("panic:"+core.Escape(msg), "", "", "", "-1", "", "", "", "", "")
 		return nil
 	}
 	if rerr != nil {
-		emit("err", "", "", "", "-1", "1", "1")
+		emit("err", "", "", "", "-1", "", "", "", "", "")
 		return nil
 	}
 	var after *core.N
 	var wf *core.WF
 	if p, msg := core.Safe(func() { after, wf = core.Alpha(t) }); p {
-		emit("panic-alpha:"+core.Escape(msg), "", "", "", "-1", "1", "1")
+		emit("panic-alpha:"+core.Escape(msg), "", "", "", "-1", "", "", "", "", "")
 		return nil
 	}
 	if !wf.OK() {
-		emit("malformed:"+core.Escape(strings.Join(wf.Problems, "; ")), "", "", "", "-1", "1", "1")
+		emit("malformed:"+core.Escape(strings.Join(wf.Problems, "; ")), "", "", "", "-1", "", "", "", "", "")
 		return nil
 	}
 	// index answers for every name that could be known to the index
 	cands := uniqSorted(append(append(append([]string(nil), n.TipNames()...), names...), after.TipNames()...))
 	cands = uniqSorted(append(cands, "zz%absent"))
-	tipset := map[*tree.Node]bool{}
-	for _, tp := range t.Tips() {
-		tipset[tp] = true
+	// RAW observations, judged by the Lean driver (Spec.tipNodesOK, Spec.bitsetsOK):
+	// * for every name the index answers: TipIndex, and what TipNode returns (its name, its number of
+	//   neighbours, its position in Tips());
+	// * for every branch in Edges() order (= the order of the α dump): its bitset as a 0/1 string;
+	// * CommonEdges of the pruned tree with an independently rebuilt and freshly indexed copy.
+	tippos := map[*tree.Node]int{}
+	for i, tp := range t.Tips() {
+		tippos[tp] = i
 	}
-	var existing []string
-	var tis []int
-	nodeok := true
+	var existing, tnNames []string
+	var tis, tnNeigh, tnPos []int
 	nb := -1
-	if p, _ := core.Safe(func() {
+	core.Safe(func() {
 		for _, q := range cands {
 			ok, e := t.ExistsTip(q)
 			if e != nil || !ok {
@@ -112,87 +116,54 @@ func doRemove(c *core.Ctx, rev bool, names []string, pre bool, n *core.N) *core.
 				tis = append(tis, -1)
 			}
 			nd, e3 := t.TipNode(q)
-			if e3 != nil || nd == nil || nd.Name() != q || !tipset[nd] {
-				nodeok = false
+			if e3 != nil || nd == nil {
+				tnNames, tnNeigh, tnPos = append(tnNames, ""), append(tnNeigh, -1), append(tnPos, -1)
+				continue
 			}
+			pos, in := tippos[nd]
+			if !in {
+				pos = -1
+			}
+			tnNames, tnNeigh, tnPos = append(tnNames, nd.Name()), append(tnNeigh, nd.Nneigh()), append(tnPos, pos)
 		}
 		if k, e := t.NbTips(); e == nil {
 			nb = k
 		}
-	}); p {
-		nodeok = false
-	}
-	bits := "1"
-	if p, msg := core.Safe(func() { bits = checkBitsets(t, after) }); p {
-		bits = "0:panic-" + core.Escape(msg)
-	}
-	emit("ok", after.Dump(), core.StrList(existing), core.IntList(tis), fmt.Sprint(nb), b01(nodeok), bits)
-	return after
-}
-
-// tipsBelow lists the names of the tips on the far side of n when coming from prev.
-func tipsBelow(n, prev *tree.Node, out map[string]bool) {
-	if n.Tip() {
-		out[n.Name()] = true
-		return
-	}
-	for _, c := range n.Neigh() {
-		if c != prev {
-			tipsBelow(c, n, out)
-		}
-	}
-}
-
-// checkBitsets: after RemoveTips every branch must carry, as its bitset indexed by TipIndex(name),
-// exactly the split it induces on the remaining tips (width = number of tips), and the pruned tree
-// must share all its branches with a copy of the same tree built independently and indexed afresh.
-// Returns "1" or "0:<what is wrong>".
-func checkBitsets(t *tree.Tree, after *core.N) string {
-	tips := t.Tips()
-	if len(tips) < 3 {
-		return "1"
-	}
-	idx := map[string]uint{}
-	for _, tp := range tips {
-		i, err := t.TipIndex(tp.Name())
-		if err != nil || i < 0 {
-			return "0:no-tip-index-for-" + core.Escape(tp.Name())
-		}
-		idx[tp.Name()] = uint(i)
-	}
-	for _, e := range t.Edges() {
-		b := e.Bitset()
-		if b == nil {
-			return "0:nil-bitset"
-		}
-		if int(b.Len()) != len(tips) {
-			return fmt.Sprintf("0:bitset-width-%d-for-%d-tips", b.Len(), len(tips))
-		}
-		below := map[string]bool{}
-		tipsBelow(e.Right(), e.Left(), below)
-		for name, i := range idx {
-			if b.Test(i) != below[name] {
-				return "0:bitset-differs-from-the-tips-below-the-branch"
+	})
+	var rows strings.Builder
+	core.Safe(func() {
+		for _, e := range t.Edges() {
+			b := e.Bitset()
+			if b == nil {
+				rows.WriteString("nil;")
+				continue
 			}
+			for i := uint(0); i < b.Len(); i++ {
+				if b.Test(i) {
+					rows.WriteByte('1')
+				} else {
+					rows.WriteByte('0')
+				}
+			}
+			rows.WriteByte(';')
 		}
-	}
-	// an independent copy of the induced subtree
-	t2, err := core.Build(after)
-	if err != nil {
-		return "0:cannot-rebuild"
-	}
-	if err := t2.ReinitIndexes(); err != nil {
-		return "1" // (duplicate names: nothing to compare)
-	}
-	_, self, err1 := t2.CommonEdges(t2, false)
-	_, common, err2 := t.CommonEdges(t2, false)
-	if err1 != nil || err2 != nil {
-		return "0:CommonEdges-fails"
-	}
-	if common != self {
-		return fmt.Sprintf("0:CommonEdges-%d-of-%d", common, self)
-	}
-	return "1"
+	})
+	ce := []int{-1, -1, -1, -1}
+	core.Safe(func() {
+		t2, err := core.Build(after)
+		if err != nil || t2.ReinitIndexes() != nil {
+			return
+		}
+		if a, c1, e1 := t2.CommonEdges(t2, false); e1 == nil {
+			ce[0], ce[1] = a, c1
+		}
+		if a, c2, e2 := t.CommonEdges(t2, false); e2 == nil {
+			ce[2], ce[3] = a, c2
+		}
+	})
+	emit("ok", after.Dump(), core.StrList(existing), core.IntList(tis), fmt.Sprint(nb),
+		core.StrList(tnNames), core.IntList(tnNeigh), core.IntList(tnPos), rows.String(), core.IntList(ce))
+	return after
 }
 
 // Replay re-executes request lines on the real code.
@@ -445,6 +416,12 @@ func genTree(c *core.Ctx) (*core.N, string) {
 					break
 				}
 			}
+		}
+	}
+	if g.Chance(0.012) {
+		// two tips with the same name (outside the hypotheses: only "no crash, no hang, no corrupt heap" is observed)
+		if tn := n.TipNames(); len(tn) >= 5 {
+			renameTip(n, tn[1], tn[0])
 		}
 	}
 	chain := ""
